@@ -88,6 +88,11 @@ class KeyAction(object):
 
         if len(self.flags):
             for _key in _preiter(key, key.subkeys.values()):
+                # a stub (GnuPG's gnu-dummy / smartcard S2K extension) holds no secret material: it cannot do the
+                # work, another component that carries the flag can
+                if _key._is_stub:
+                    continue
+
                 if self.flags & set(_key._get_key_flags(user)):
                     break
 
@@ -130,7 +135,9 @@ class KeyAction(object):
                 raise PGPError("Key is not complete - please add a User ID!")
 
             with self.usage(key, kwargs.get('user', None)) as _key:
-                self.check_attributes(key)
+                # a primary key that is a stub can never be unlocked: when a subkey does the work, that one's state decides
+                if _key is key or not key._is_stub:
+                    self.check_attributes(key)
                 # the component that was picked to do the work has a lock state of its own
                 if _key is not key:
                     self.check_attributes(_key)
